@@ -114,6 +114,70 @@ def main():
                                  {"case": dict(c, ops=c["ops"][: k + 2 * L + 1]), "before": before[l], "after": after[l]}, tag="frame")
             k += L + 1
     lr.stats["frame_checks"] = nframe
+    # the same histories through sys.System (its location cache under TTL never / 1 ms / forever decides whether an ancestor is
+    # already in memory or is loaded in the middle of the request that walks to it): every answer against the same Lean model
+    def via_system(c, ttl):
+        ops = []
+        for op in c["ops"]:
+            if op["op"] == "snapshot": continue
+            op = copy.deepcopy(op)
+            if op["op"] == "setParents": op["parents"] = [x for x in op["parents"] if x != "nowhere"]   # the System creates a location that is asked for
+            ops.append(op)
+        return {"kind": "c17.sys", "ttl": ttl, "check": False, "state": c["state"], "locs": c["locs"], "ops": ops}
+    nvs = 40 if not ck.thorough else 600
+    # (not the histories whose actions call Env.RemFact: with the System's rem hook a second removal of the same fact is an error, see below)
+    picked = [c for c in cases if any(o["op"] == "setParents" and o["parents"] for o in c["ops"]) and '"remfact"' not in json.dumps(c["ops"])][: nvs]
+    vs = [via_system(c, ttl) for c in picked for ttl in ("never", "1ms", "forever")]
+    # directed: a child whose rule looks at inherited facts (the search opens the parent: loaded on the spot under TTL never or an
+    # expired TTL, already there under forever) and then writes through Env.AddFact: the write lands in the child
+    t = {"t": "addfact", "id": "got", "fact": {"got": 1}}
+    blk = [{"op": "addFact", "id": "pf", "fact": {"have": "chips"}, "loc": "a"}, {"op": "addFact", "id": "cf", "fact": {"k": 1}, "loc": "b"},
+           {"op": "setParents", "parents": ["a"], "loc": "b"},
+           {"op": "addRule", "id": "pr", "loc": "b", "rule": {"when": {"pattern": {"pgo": "?x"}}, "condition": {"pattern": {"have": "?y"}}, "action": {"code": js_of_tmpl(t), "verif_tmpl": t}}},
+           {"op": "event", "event": {"pgo": 1}, "loc": "b"},
+           {"op": "getFact", "id": "got", "loc": "b"}, {"op": "getFact", "id": "got", "loc": "a"},
+           {"op": "search", "pattern": {"have": "?v"}, "inherited": True, "loc": "b"}, {"op": "search", "pattern": {"got": "?v"}, "inherited": False, "loc": "a"},
+           {"op": "setParents", "parents": [], "loc": "b"}, {"op": "search", "pattern": {"have": "?v"}, "inherited": True, "loc": "b"}]
+    vs += [{"kind": "c17.sys", "ttl": ttl, "check": False, "state": st, "locs": ["a", "b"], "ops": copy.deepcopy(blk)} for ttl in ("never", "1ms", "forever") for st in ("indexed", "linear")]
+    vimpl = run_cases(lr.drv, vs)
+    vm = []
+    for c, i in zip(vs, vimpl):
+        mc = dict(copy.deepcopy(c), kind="loc")
+        outs = (i or {}).get("outs") or []
+        for k, op in enumerate(mc["ops"]):
+            op["now"] = outs[k].get("now", 0) if k < len(outs) and isinstance(outs[k], dict) else 0
+        vm.append(mc)
+    vmodel = run_cases(lr.mdl, vm)
+    nrep = 0
+    for c, i, m in zip(vm, vimpl, vmodel):
+        ck.count({"via": "system", "ttl": c["ttl"], "s": c["state"], "ops": c["ops"]})
+        lr.stats["system_histories"] += 1
+        if isinstance(i, dict) and i.get("err") in ("crash", "hang", "skipped", "badjson"):
+            ck.violation("sys.System %s on this history (ttl=%s, %s state): %s" % (i.get("err"), c["ttl"], c["state"], str(i.get("stderr", ""))[-300:]), {"case": dict(c, kind="c17.sys"), "impl": i}, tag="sys-crash")
+            continue
+        table = {}
+        iouts, mouts = (i or {}).get("outs"), (m or {}).get("outs")
+        if iouts is None or mouts is None or len(iouts) != len(c["ops"]) or len(mouts) != len(c["ops"]):
+            ck.violation("driver failure (System history): impl=%s model=%s" % (canon(i)[:300], canon(m)[:300]), {"case": c, "impl": i, "model": m}, tag="internal")
+            continue
+        for k, op in enumerate(c["ops"]):
+            io, mo = map_ids(iouts[k], table), mouts[k]
+            lr.stats["system_ops"] += 1
+            if canon_out(op, io) == canon_out(op, mo):
+                continue
+            if op["op"] in ("remFact", "remRule", "enableRule") and isinstance(io, dict) and io.get("err") == "notFound" and isinstance(mo, dict) and mo.get("err") is None:
+                # a System installs the cron hooks: the rem hook reads the fact first, so removing what is not there (a fact, or the disabled flag of a rule that is not disabled) is reported
+                # as an error (a plain state answers ok); nothing changes either way, and the reads that follow would show it
+                lr.stats["system_rem_missing"] += 1
+                continue
+            if lr.classify(c, k, op, mo, io):
+                break
+            nrep += 1
+            if nrep <= 6:
+                ck.violation("through sys.System (location cache TTL %s, %s state) op %d (%s at %s) differs from the model of the locations: impl=%s model=%s" % (
+                    c["ttl"], c["state"], k, op["op"], op.get("loc"), canon_out(op, io)[1][:300], canon_out(op, mo)[1][:300]),
+                    {"case": dict(c, kind="c17.sys", ops=c["ops"][: k + 1]), "first_differing_op": k, "impl": io, "model": mo}, tag="system")
+            break
     # the parent list is the only way in: replacing it is one step. A storage write that fails inside SetParents (reported to the caller)
     # leaves the old list or the new one in force after a reload, never none.
     pf = []
